@@ -151,6 +151,10 @@ Verdict(c) ==
       [] c.ctx = "close" -> IF a.k \in {"chan", "schan"} THEN "ok" ELSE IF a.k = "rchan" THEN "channel direction" ELSE "invalid builtin argument"
       [] c.ctx = "len" -> IF a.k \in {"string", "slice", "array", "map", "chan", "rchan", "schan"} THEN "ok" ELSE "invalid builtin argument"
       [] c.ctx = "cap" -> IF a.k \in {"slice", "array", "chan", "rchan", "schan"} THEN "ok" ELSE "invalid builtin argument"
+      \* min(x, y), max(x, y) (go1.21): valid when x + y is valid for ordered operands (numeric or string; there is
+      \* no complex type in this universe); clear(x) (go1.21): x is a map or a slice
+      [] c.ctx \in {"min", "max"} -> IF BinOK("+", a, b) THEN "ok" ELSE "invalid builtin argument"
+      [] c.ctx = "clear" -> IF a.k \in {"map", "slice"} THEN "ok" ELSE "invalid builtin argument"
       [] c.ctx = "append" -> IF AssignableTo(b, CHOOSE t \in Typed : t.n = "int") THEN "ok" ELSE AssignReason(b, CHOOSE t \in Typed : t.n = "int")
       [] c.ctx = "index" -> IF a.k \in {"string", "slice", "array"} THEN "ok" ELSE IF a.k = "map" THEN "map key type" ELSE "not indexable"
       [] c.ctx = "deref" -> IF a.k = "ptr" THEN "ok" ELSE "invalid indirect"
@@ -166,12 +170,12 @@ Verdict(c) ==
       [] c.ctx = "undefined" -> IF a.n = "ok" THEN "ok" ELSE "undefined"
 
 Int == CHOOSE t \in Typed : t.n = "int"
-Unary == {"send", "recv", "close", "len", "cap", "index", "deref", "field-A", "method-M", "neg", "not", "range"}
+Unary == {"send", "recv", "close", "len", "cap", "clear", "index", "deref", "field-A", "method-M", "neg", "not", "range"}
 Fixed(ctx, names) == {[ctx |-> ctx, a |-> T(n, "fixed", FALSE, n), b |-> Int] : n \in names}
 
 Cases ==
        {[ctx |-> x, a |-> a, b |-> b] : x \in AssignCtx \cup {"convert"}, a \in Typed, b \in Operands}
-  \cup {[ctx |-> x, a |-> a, b |-> b] : x \in {"+", "<", "&&", "=="}, a \in Operands, b \in Operands}
+  \cup {[ctx |-> x, a |-> a, b |-> b] : x \in {"+", "<", "&&", "==", "min", "max"}, a \in Operands, b \in Operands}
   \cup {[ctx |-> x, a |-> Int, b |-> b] : x \in {"if-cond", "for-cond", "append"}, b \in Operands \ {T("nil", "nil", FALSE, "nil")}}
   \cup {[ctx |-> x, a |-> a, b |-> Int] : x \in Unary, a \in Typed}
   \cup {[ctx |-> "assert", a |-> a, b |-> b] : a \in Typed, b \in Typed}
